@@ -606,6 +606,9 @@ def _assign_form(ip: Interp, clause: str, env: dict, modifies: list[str]) -> boo
     if isinstance(cur, ZRec):
         cur.set(sub.coerce_sort(val, cur.get().sort(), node))
         return True
+    if (cur is None or isinstance(cur, FuncVal) or S.is_val(cur)) and isinstance(val, FuncVal):
+        set_(val)  # an optional callable field that the callee sets
+        return True
     if z3.is_expr(cur) and z3.is_expr(sub.z(val)):
         set_(sub.coerce_sort(val, cur.sort(), node))
         return True
